@@ -19,7 +19,7 @@ import re
 
 def run(c):
     thorough = c.tier == "thorough"
-    c.go2coq_sources = ["load.go"]
+    c.go2coq_sources = ["load.go", "load_ops.go"]
     c.rule = ("helper cases: a rules file of 1-3 groups (matcher named m/mt/q), each with 1-3 local helpers named f/g/h (so later groups "
               "redefine the names of earlier ones with other bodies and parameter lists), 0-6 params of type dsl.Var/string/int/dsl.Matcher in any "
               "order (possibly named like a selected field or the matcher), bodies of 1-3 atoms out of 26 filter expressions (one- and two-variable, "
@@ -159,6 +159,13 @@ def run(c):
                 c.sample({"with_helpers": "func g0" + x["src_a"].split("func g0", 1)[1], "inlined": "func g0" + x["src_b"].split("func g0", 1)[1],
                           "status": sa, "error": a.get("conv_err") or a.get("load_err"), "reports": a.get("reports")})
         hs = [x for x in cases if x["kind"] == "helper"]
+        fixed = [x for x in hs if x.get("fixed")]
+        if fixed:
+            # the hand-written twins of the fixed catalogue are meaningful: each loads and reports on the probe file
+            dead = [x["fixed"] for x in fixed if not x.get("crash") and (status(x["b"]) != "ok" or not x["b"].get("reports"))]
+            c.obligation("fixed-twins-meaningful:" + tag, not dead, "inlined twins that do not load or do not report: %s" % dead, count=1)
+            c.coverage["fixed_twin_cases"] = c.coverage.get("fixed_twin_cases", 0) + len(fixed)
+            c.coverage["fixed_twin_cases_loaded"] = c.coverage.get("fixed_twin_cases_loaded", 0) + sum(1 for x in fixed if status(x["a"]) == "ok")
         c.coverage["helper_cases"] = c.coverage.get("helper_cases", 0) + len(hs)
         c.coverage["helper_loaded_and_equal"] = c.coverage.get("helper_loaded_and_equal", 0) + sum(1 for x in hs if status(x["a"]) == "ok")
         c.coverage["helper_rejected"] = c.coverage.get("helper_rejected", 0) + sum(1 for x in hs if status(x["a"]) != "ok")
@@ -166,7 +173,9 @@ def run(c):
         c.coverage["nested_cases"] = c.coverage.get("nested_cases", 0) + sum(1 for x in hs if x.get("nested"))
         for key, fld in (("several_groups_cases", None), ("same_helper_name_in_two_groups", "same_name"), ("argument_spelled_like_a_parameter", "param_named"),
                          ("legacy_octal_in_helper_body", "octal"), ("package_func_named_like_helper", "pkg_func"),
-                         ("helper_called_more_than_once", "twice")):
+                         ("helper_called_more_than_once", "twice"), ("helper_with_blank_param", "blank"),
+                         ("helper_with_blank_param_before_named", "blank_first"), ("helper_body_names_constant", "const_body"),
+                         ("helper_body_names_shadowed_constant", "shadow_body")):
             for tag, pred in (("", lambda x: True), ("_loaded", lambda x: status(x["a"]) == "ok")):
                 c.coverage[key + tag] = c.coverage.get(key + tag, 0) + sum(
                     1 for x in hs if pred(x) and (x.get("groups", 1) > 1 if fld is None else x.get(fld)))
